@@ -15,6 +15,9 @@ def task_body(depth: int):
     fail = st.builds(lambda e: {"k": "raise", "exc": e}, st.sampled_from(["Exception", "ExcSubclass"]))
     ops = [simple, simple]
     if depth > 0:
+        # cleanup code of a spawned task that spawns a follow-up task (runs also while the group is shutting down)
+        follow_up = st.builds(lambda b: {"k": "spawn", "via": "ctx", "body": b}, st.lists(sleep, min_size=1, max_size=2))
+        ops.append(st.builds(lambda b, f: {"k": "try_finally", "body": b, "final": [f]}, st.lists(simple, min_size=1, max_size=2), follow_up))
         ops.append(st.builds(lambda b: {"k": "spawn", "via": "ctx", "body": b}, st.deferred(lambda: task_body(depth - 1))))
         ops.append(
             st.builds(
